@@ -40,7 +40,7 @@ for path in sorted(glob.glob(os.path.join(HERE, 'mutants', '*.json'))):
             res = []
             for prop in m['property'].split(','):
                 r = subprocess.run([os.path.join(HERE, 'check'), prop, '--tier', tier], capture_output=True, text=True,
-                                   env=dict(os.environ, VERIF_REPO=dst, VERIF_NO_EVIDENCE='1'))
+                                   env=dict(os.environ, VERIF_REPO=dst, VERIF_NO_EVIDENCE='1', VERIF_REPLAYS=os.path.join(scratch, 'replays')))
                 viol = [l for l in r.stdout.splitlines() if l.startswith('VIOLATION')]
                 clause = [l.strip()[:110] for l in r.stdout.splitlines() if l.startswith('  clause=')][:1]
                 res.append('%s:%s' % (prop, 'CAUGHT' if (r.returncode == 1 and viol) else 'MISSED(exit %d)' % r.returncode))
